@@ -99,17 +99,34 @@ def elem_type(t):
     return t[1][0] if t and t[0] in ("sequence", "set") else None
 
 
+def _encodable(t, env, v):
+    try:
+        oracle_encode(t, v, env)
+        return True
+    except OracleError:
+        return False
+
+
 def mutate_in_place(rng, d, t, env):
-    """returns True if d was changed in place"""
+    """returns True if d was changed in place (only by values the element type can hold)"""
     try:
         if isinstance(d, list) and t and t[0] == "sequence":
-            d.append(auxval.rand_value(rng, t[1][0], env))
+            x = auxval.rand_value(rng, t[1][0], env)
+            if not _encodable(t[1][0], env, x):
+                return False
+            d.append(x)
             return True
         if isinstance(d, set) and t and t[0] == "set":
-            d.add(auxval.rand_value(rng, t[1][0], env))
+            x = auxval.rand_value(rng, t[1][0], env)
+            if not _encodable(t[1][0], env, x):
+                return False
+            d.add(x)
             return True
         if isinstance(d, dict) and t and t[0] == "mapping":
-            d[auxval.rand_value(rng, t[1][0], env)] = auxval.rand_value(rng, t[1][1], env)
+            k, x = auxval.rand_value(rng, t[1][0], env), auxval.rand_value(rng, t[1][1], env)
+            if not (_encodable(t[1][0], env, k) and _encodable(t[1][1], env, x)):
+                return False
+            d[k] = x
             return True
     except TypeError:
         return False
@@ -193,6 +210,10 @@ def run(ctx):
                     elif o == "assign":
                         if st["kind"] == "known" and st["tn"] == type_str(st["t"]):
                             v = auxval.rand_value(rng, st["t"], env)
+                            try:
+                                oracle_encode(st["t"], v, env)       # only values the type can hold (e.g. no double beyond the float32 range)
+                            except OracleError:
+                                continue
                             ad.data = v
                             st["touched"] = True
                             mops[k].append([2, to_sx(v, env)])
@@ -324,6 +345,7 @@ def run(ctx):
         ctx.case("fail" + tn + repr(ops), True)
         all_reqs.append([10, [], zs(tn), list(raw), mo])
         all_checks.append((dict(tn=tn, raw=raw, kind="failure-stream"), mo, ch))
+    resave_stream(ctx, g, rng, IRm, all_reqs, all_checks)
     replies = model_batch(all_reqs)
     for (tb, mo, ch), rep in zip(all_checks, replies):
         for (idx, kind, want) in ch:
@@ -360,6 +382,74 @@ def run(ctx):
                        "non-trivial = at least one op in that generation; distinct = (table, ops, type name, written bytes)" % gens)
     for (tb, mo, ch) in all_checks[:3]:
         ctx.sample({"type_name": tb["tn"], "raw": tb["raw"].hex()[:80], "kind": tb["kind"], "model_ops": repr(mo)[:300]})
+
+
+def resave_stream(ctx, g, rng, IRm, all_reqs, all_checks):
+    """the SAME in-memory IR saved several times: a value obtained once (reference kept by the caller) is modified in place
+    BETWEEN saves without touching `.data` again; every save must write the encoding of the value as it is then"""
+    n = 40 if ctx.quick else 600
+    for i in range(n):
+        ir = g.IR()
+        m = g.Module(name="m", ir=ir)
+        env = LoadedEnv(g, {ir.uuid.int: 1, m.uuid.int: 2})
+        env.bind(ir)
+        def nofloat(t):
+            return ("double", []) if t[0] == "float" else (t[0], [nofloat(x) for x in t[1]])
+        et = nofloat(auxval.rand_type(rng, 1))
+        kind = rng.choice(["sequence", "sequence", "mapping", "set"])
+        if kind == "sequence":
+            t = ("sequence", [et])
+        elif kind == "set":
+            t = ("set", [(rng.choice(auxval.HASHABLE_LEAVES), [])])
+        else:
+            t = ("mapping", [(rng.choice(auxval.HASHABLE_LEAVES), []), et])
+        try:
+            v = auxval.rand_value(rng, t, env, size=2)
+            raw0 = bytes(oracle_encode(t, v, env))
+            v0_sx = to_sx(v, env)            # before any in-place modification
+        except Exception:  # noqa: BLE001
+            continue
+        tn = type_str(t)
+        holder = ir if rng.random() < 0.5 else m
+        loaded_first = rng.random() < 0.5
+        holder.aux_data["t"] = g.AuxData(v, tn)
+        mo, ch = [], []
+        if loaded_first:
+            # go through a file first, so the table starts as a lazily loaded one
+            buf = io.BytesIO(); ir.save_protobuf_file(buf)
+            ir = g.IR.load_protobuf_file(io.BytesIO(buf.getvalue()))
+            env.bind(ir)
+            holder = ir if "t" in ir.aux_data else next(iter(ir.modules))
+        ad = holder.aux_data["t"]
+        d = ad.data                      # the caller keeps this reference
+        mo.append([0]); ch.append((len(mo) - 1, "read", ("ok", canon(to_sx(d, env)))))
+        for rnd in range(rng.choice([2, 3])):
+            buf = io.BytesIO()
+            ir.save_protobuf_file(buf)
+            out = IRm(); out.ParseFromString(buf.getvalue()[8:])
+            src = out.aux_data if "t" in out.aux_data else out.modules[0].aux_data
+            got_tn, got = src["t"].type_name, bytes(src["t"].data)
+            # the order in which a set/dict is written is the implementation's; judge by decoding with the independent reading of the bytes:
+            # re-encode the held value in the order the implementation used (decode its bytes, compare values, then compare lengths)
+            try:
+                back = g.AuxData.serializer.decode(got, tn, ir.get_by_uuid)
+                import codec_cases
+                same = canon(to_sx(back, env)) == canon(codec_cases.expected_after_roundtrip(t, d, env)) and len(got) == len(bytes(oracle_encode(t, d, env)))
+            except Exception:  # noqa: BLE001
+                same = False
+            ctx.count("resave:saves")
+            if got_tn != tn or not same:
+                ctx.add("oracle", "stale-or-wrong-bytes", "a table modified in place between two saves of the same IR was not written as the encoding of its current value",
+                        {"type_name": tn, "round": rnd, "written_bytes": got.hex(), "current_value": repr(d)[:300], "loaded_first": loaded_first})
+                break
+            mo.append([6, to_sx(back, env)]); ch.append((len(mo) - 1, "ok", None))
+            mo.append([4]); ch.append((len(mo) - 1, "save", (got_tn, got)))
+            if not mutate_in_place(rng, d, t, env):      # through the reference obtained BEFORE the save; `.data` is not touched again
+                break
+            ctx.count("resave:in_place_mutations_between_saves")
+            mo.append([1, to_sx(d, env)]); ch.append((len(mo) - 1, "ok", None))
+        ctx.case("resave" + tn + repr(canon(to_sx(d, env)))[:200], True)
+        # (judged by the direct oracle only: the model's statement for this situation is the theorem C14_touched_reencoded)
 
 
 def replay(ctx, path):
